@@ -57,6 +57,47 @@ def c24 (kind : Kind) (fs : List Sexp) : Option Sexp := do
   let outSteps := steps.map fun (r, snap) => Sexp.list [outRes r, .list (snap.map outRes)]
   some (.list [.list outSteps, .list (dbf.map fun e => .list [ofBytes e.1, ofBytes e.2])])
 
+/-! ### C24 over the library's own wiring: one Subery = three independent sub-dbs (cans plain, drqs io, dsqs ioset) -/
+
+def storeKind : String → Option Kind
+  | "cans" => some .plain
+  | "drqs" => some .io
+  | "dsqs" => some .ioset
+  | _ => none
+
+structure Three where
+  c : Db
+  q : Db
+  s : Db
+
+def Three.get (t : Three) : Kind → Db
+  | .plain => t.c | .io => t.q | .ioset => t.s
+
+def Three.set (t : Three) (k : Kind) (db : Db) : Three :=
+  match k with
+  | .plain => { t with c := db } | .io => { t with q := db } | .ioset => { t with s := db }
+
+def subRun (keys : List Bytes) : Three → List (Kind × Op) → List Sexp × Three
+  | t, [] => ([], t)
+  | t, (kd, op) :: rest =>
+    let (db', r) := step kd (t.get kd) op
+    let t' := t.set kd db'
+    let snap := Sexp.list ([Kind.plain, Kind.io, Kind.ioset].map fun k => Sexp.list (keys.map fun key => outRes (observe k (t'.get k) key)))
+    let (out, tf) := subRun keys t' rest
+    (Sexp.list [outRes r, snap] :: out, tf)
+
+def c24sub (fs : List Sexp) : Option Sexp := do
+  let keys ← bytesL (← field "keys" fs)
+  let ops ← (← field "ops" fs).mapM fun
+    | .list (.atom st :: rest) => do
+      let kd ← storeKind st
+      let op ← parseOp kd (.list rest)
+      pure (kd, op)
+    | _ => none
+  let (steps, tf) := subRun keys ⟨[], [], []⟩ ops
+  let dump (db : Db) : Sexp := .list (db.map fun e => .list [ofBytes e.1, ofBytes e.2])
+  some (.list [.list steps, .list [dump tf.c, dump tf.q, dump tf.s]])
+
 /-! ### C23 -/
 
 def parseVal : Sexp → Option Bytes
@@ -117,6 +158,7 @@ def handle : Sexp → Sexp
   | .list (.atom "io" :: fs) => (c24 .io fs).getD (sym "bad-request")
   | .list (.atom "ioset" :: fs) => (c24 .ioset fs).getD (sym "bad-request")
   | .list (.atom "oracleonly" :: _) => sym "oracle-only"
+  | .list (.atom "subery" :: fs) => (c24sub fs).getD (sym "bad-request")
   | .list (.atom "durq" :: fs) => (c23 .durq fs).getD (sym "bad-request")
   | .list (.atom "dusq" :: fs) => (c23 .dusq fs).getD (sym "bad-request")
   | _ => sym "bad-request"
